@@ -38,7 +38,7 @@ pub const POOL_SIZES: [usize; 6] = [1, 2, 3, 4, 16, 64];
 
 // ------------------------------------------------------------------------------ C07
 
-pub const C07_RULE: &str = "positions including checkmated, stalemated, single-legal-move and in-check ones (cage / pin-check themes, placements, endgames, reachable walks), half-move clock 0..150 and 0..3 prior registrations of the position (so draw-by-history states with legal moves are included), depth 0..5 (3 only for <= 8 men, 4 for <= 4 men, 5 for <= 3 men), rayon pools of 1/2/3/4/16/64 threads, through alpha_beta_search with a new or a used generator (optionally followed by a second search with the same context on the same position or on the same placement with the other side to move) and through Game::select_alpha_beta_best_move: depth 0 -> Err(DepthTooLow) (a terminal position at depth 0 may report either declared error); no legal move and depth >= 1 -> Err(NoAvailableMoves); otherwise Ok(move) whose (kind, from, to, promotion, captured) is in the reference legal set; full observable snapshot identical before and after; no panic. Heavy context: one SearchContext serves depth-4 searches of tiny endgames until several hundred thousand nodes have passed through its cache. Non-trivial = terminal, single legal move, in check, depth 0, clock >= 100 or repetition count 3 with legal moves, or pool size != 1; distinct = hash of the case.";
+pub const C07_RULE: &str = "positions including checkmated, stalemated, single-legal-move and in-check ones (cage / pin-check themes, placements, endgames, reachable walks), half-move clock 0..150 and 0..3 prior registrations of the position (so draw-by-history states with legal moves are included), depth 0..5 (3 only for <= 8 men, 4 for <= 4 men, 5 for <= 3 men; 6..14 on forced lines where every node has one legal move), rayon pools of 1/2/3/4/16/64 threads, through alpha_beta_search with a new or a used generator (optionally followed by a second search with the same context on the same position or on the same placement with the other side to move) and through Game::select_alpha_beta_best_move: depth 0 -> Err(DepthTooLow) (a terminal position at depth 0 may report either declared error); no legal move and depth >= 1 -> Err(NoAvailableMoves); otherwise Ok(move) whose (kind, from, to, promotion, captured) is in the reference legal set; full observable snapshot identical before and after; no panic. Heavy context: one SearchContext serves depth-4 searches of tiny endgames until several hundred thousand nodes have passed through its cache. Non-trivial = terminal, single legal move, in check, depth 0, clock >= 100 or repetition count 3 with legal moves, or pool size != 1; distinct = hash of the case.";
 
 #[derive(Clone, Debug, Serialize, Deserialize)]
 pub struct SearchCase {
@@ -57,10 +57,25 @@ pub struct SearchCase {
 
 pub struct C07Searches;
 
+/// exactly one legal move here and exactly one legal reply to it, four plies deep
+fn legal_count_is_one(pos: &Pos) -> bool {
+    let mut p = pos.clone();
+    for _ in 0..4 {
+        let l = p.legal_moves();
+        if l.len() != 1 {
+            return false;
+        }
+        p = p.make(&l[0]);
+    }
+    true
+}
+
 fn search_position() -> BoxedStrategy<String> {
     prop_oneof![
         5 => gen::terminal_biased(),
         3 => gen::tactical_crowd(),
+        // up to nine queens a side on an open board: root move lists of 100..200 moves
+        1 => gen::material_extreme().prop_map(|r| gen::build(&r).fen()),
         1 => gen::mating_material(),
         1 => (0usize..gen::FORCED_SEEDS.len(), prop::collection::vec(any::<u16>(), 0..4)).prop_map(|(i, sels)| {
             gen::walk_end(&gen::Walk { fen: gen::FORCED_SEEDS[i].to_string(), sels }).fen()
@@ -115,8 +130,12 @@ impl Prop for C07Searches {
         let mut pos = Pos::from_fen(&c.fen).map_err(Failure::new)?;
         pos.half = c.half as u32;
         let men = pos.men();
+        // forced lines (one legal move, and one legal reply to it) cost nothing per ply: there
+        // the depth goes up to 14
+        let forced = legal_count_is_one(&pos);
         // depth 3 only for <= 8 men, 4 for <= 4 men, 5 for <= 3 men
         let depth = match (c.depth, men) {
+            (d, _) if forced && d >= 1 => 6 + (c.half % 9),
             (d, m) if d >= 5 && m <= 3 => 5,
             (d, m) if d >= 4 && m <= 4 => 4,
             (d, m) if d >= 3 && m <= 8 => 3,
@@ -596,6 +615,9 @@ impl Prop for C08Searches {
                 1 => gen::terminal_biased(),
                 1 => gen::pre_terminal(),
                 2 => gen::mating_material(),
+                // long move lists (more than 64 moves are common): depth is capped at 2 for > 7 men
+                1 => gen::tactical_crowd(),
+                1 => gen::material_extreme().prop_map(move |r| zero(gen::build(&r))),
                 1 => gen::placement(12).prop_map(move |r| zero(gen::build(&r))),
                 1 => gen::walk(50).prop_map(move |w| zero(gen::walk_end(&w))),
             ],
